@@ -108,6 +108,8 @@ deriving Repr, Inhabited
 structure G where
   unique : Bool := true
   maxRetry : Nat := 30
+  keepTracker : Bool := false            -- refetch keeps lock ids, isLockOwner flags and replayed adds in the tracker
+                                         -- (the repaired `refetchAndMergeClosure`, proposed_fixes/C04-refetch-keeps-tracker)
   pageOf : Nat → Nat := fun _ => 0
   ids : List Nat := []                   -- every item id that ever existed (for lookups by key and dumps)
   db : Nat → Option Entry := fun _ => none
@@ -300,12 +302,13 @@ def refetchStep (g : G) (acc : Option (List Tr × List Nat)) (tr : Tr) : Option 
       let view : Nat → Option Entry := fun x =>
         if newIds.contains x then (out.find? (·.item = x)).map (fun a => ⟨a.ent.key, a.nval, a.nver⟩) else g.db x
       if g.unique && (findKey view (g.ids ++ newIds) tr.ent.key).isSome then none
-      else some (out ++ [{ tr with live := false, own := false, nver := 1 }], newIds ++ [tr.item])
+      else some (out ++ [{ tr with live := g.keepTracker, own := false, nver := 1 }], newIds ++ [tr.item])
     else
       match g.db tr.item with
       | none => none
       | some e =>
-        if e.key = tr.ent.key ∧ e.ver = tr.ent.ver then some (out ++ [{ tr with gen := tr.gen + 1, own := false, phys := 0 }], newIds)
+        if e.key = tr.ent.key ∧ e.ver = tr.ent.ver then
+          some (out ++ [if g.keepTracker then { tr with phys := 0 } else { tr with gen := tr.gen + 1, own := false, phys := 0 }], newIds)
         else none
 
 def refetch (g : G) (t : Txn) : Option Txn :=
